@@ -97,6 +97,7 @@ type gen struct {
 	inlineDepth int
 	isInline bool
 	ghostSetsApplied int
+	pointAssertsApplied int
 	// freshRefs: reference terms known (syntactically) to denote objects allocated during this execution;
 	// writtenOld: components with a write that is not known to hit such an object only
 	freshRefs  map[string]bool
